@@ -403,7 +403,7 @@ theorem LifeInv.ofFileStart' {s : State} {L : Held} {prio now t : Nat} (tk : Nat
   have h1 := LifeInv.ofFileStartStep tk c hck hc0 hcs hw h hfn
   unfold autoPublish
   split
-  · exact h1.ofPublish now
+  · exact publishTry_elim (P := fun x => LifeInv x ((prio, c) :: L)) _ now (h1.ofPublish now) h1
   · exact h1
 
 theorem LifeInv.ofFileStart {s : State} {L : Held} {prio now t : Nat} (tk : Nat)
